@@ -969,4 +969,127 @@ theorem getElem?_append_right' (l r : Row) (j : Nat) : (l ++ r)[l.length + j]? =
   congr 1
   omega
 
+/-! ## field resolution, characterised -/
+
+/-- without a join column in play (qualified reference, or no flagged field) the loop of `FieldIndex` counts the
+    matching fields: none = NOT FOUND, one = that field, more = AMBIGUOUS -/
+theorem fieldIndexGo_char (view : Option String) (name : String) (fs : List HField) (i : Nat) (idx : Option Nat)
+    (hnj : view.isSome = true ∨ ∀ f, f ∈ fs → f.isJoin = false) :
+    fieldIndexGo view name fs i idx =
+      match idx, fs.countP (fieldMatches view name) with
+      | none, 0 => .error .notExist
+      | none, 1 => .ok (i + fs.findIdx (fieldMatches view name))
+      | some k, 0 => .ok k
+      | _, _ => .error .ambiguous := by
+  induction fs generalizing i idx with
+  | nil => cases idx <;> simp [fieldIndexGo]
+  | cons f fs ih =>
+    have hnj' : view.isSome = true ∨ ∀ g, g ∈ fs → g.isJoin = false := by
+      rcases hnj with h | h
+      · exact Or.inl h
+      · exact Or.inr (fun g hg => h g (List.mem_cons_of_mem _ hg))
+    have hj : joinWins view name f = false := by
+      unfold joinWins
+      rcases hnj with h | h
+      · cases view with
+        | none => simp at h
+        | some _ => rfl
+      · simp [h f (List.mem_cons_self ..)]
+    simp only [fieldIndexGo]
+    by_cases hm : fieldMatches view name f = true
+    · simp only [hm, if_true, hj, Bool.false_eq_true, if_false, List.countP_cons, List.findIdx_cons]
+      cases idx with
+      | some k => simp
+      | none =>
+        simp only
+        rw [ih (i + 1) (some i) hnj']
+        cases hc : fs.countP (fieldMatches view name) with
+        | zero => simp
+        | succ n => simp
+    · simp only [hm, Bool.false_eq_true, if_false, List.countP_cons, List.findIdx_cons, Nat.add_zero]
+      rw [ih (i + 1) idx hnj']
+      simp only [cond_false]
+      cases idx with
+      | some k => cases fs.countP (fieldMatches view name) <;> rfl
+      | none =>
+        cases hc : fs.countP (fieldMatches view name) with
+        | zero => rfl
+        | succ n =>
+          cases n with
+          | zero => simp only; congr 1; omega
+          | succ m => rfl
+
+/-- exactly one element satisfies `p`, at position `k` -/
+theorem countP_one_findIdx {α} (p : α → Bool) (l : List α) (k : Nat) :
+    (l.countP p = 1 ∧ k = l.findIdx p) ↔
+      (∃ x, l[k]? = some x ∧ p x = true) ∧ ∀ j y, l[j]? = some y → p y = true → j = k := by
+  induction l generalizing k with
+  | nil => simp
+  | cons a as ih =>
+    by_cases ha : p a = true
+    · simp only [List.countP_cons, ha, if_true, List.findIdx_cons, cond_true]
+      constructor
+      · rintro ⟨hc, rfl⟩
+        have hc0 : as.countP p = 0 := by omega
+        refine ⟨⟨a, rfl, ha⟩, ?_⟩
+        intro j y hj hy
+        cases j with
+        | zero => rfl
+        | succ j =>
+          simp only [List.getElem?_cons_succ] at hj
+          have := List.countP_eq_zero.mp hc0 y (List.mem_of_getElem? hj)
+          simp [hy] at this
+      · rintro ⟨_, huniq⟩
+        have hk : k = 0 := (huniq 0 a rfl ha).symm
+        refine ⟨?_, hk⟩
+        have : as.countP p = 0 := by
+          apply List.countP_eq_zero.mpr
+          intro y hy hpy
+          obtain ⟨j, hj⟩ := List.getElem?_of_mem hy
+          have := huniq (j + 1) y (by simpa using hj) (by simpa using hpy)
+          omega
+        omega
+    · simp only [List.countP_cons, ha, Bool.false_eq_true, if_false, Nat.add_zero, List.findIdx_cons, cond_false]
+      cases k with
+      | zero =>
+        simp only [List.getElem?_cons_zero, Option.some.injEq]
+        constructor
+        · rintro ⟨_, h⟩; omega
+        · rintro ⟨⟨x, rfl, hx⟩, _⟩; exact absurd hx ha
+      | succ k =>
+        have := ih k
+        simp only [List.getElem?_cons_succ]
+        constructor
+        · rintro ⟨hc, hk⟩
+          have h' := this.mp ⟨hc, by omega⟩
+          refine ⟨h'.1, ?_⟩
+          intro j y hj hy
+          cases j with
+          | zero => simp only [List.getElem?_cons_zero, Option.some.injEq] at hj; subst hj; exact absurd hy ha
+          | succ j =>
+            simp only [List.getElem?_cons_succ] at hj
+            have := h'.2 j y hj hy
+            omega
+        · rintro ⟨hex, huniq⟩
+          have h' := this.mpr ⟨hex, fun j y hj hy => by
+            have := huniq (j + 1) y (by simpa using hj) hy
+            omega⟩
+          exact ⟨h'.1, by omega⟩
+
+/-! ## the other loops of header.go -/
+
+theorem runLoop_find (p : HField → Bool) (fs : List HField) (i : Nat) (idx : Int) :
+    runLoopShape p fs i idx = (match fs.findIdx? p with | some k => ((i + k : Nat) : Int) | none => idx) := by
+  induction fs generalizing i with
+  | nil => rfl
+  | cons f fs ih =>
+    simp only [runLoopShape, List.findIdx?_cons]
+    by_cases h : p f = true
+    · simp [h]
+    · simp only [h, Bool.false_eq_true, if_false, cond_false]
+      rw [ih (i + 1)]
+      cases fs.findIdx? p with
+      | none => rfl
+      | some k => simp only [Option.map_some]; congr 1; omega
+
 end Csvq.Rel
